@@ -25,7 +25,8 @@ REQUIRED_EVENTS = ["sessions", "faults_injected", "ended_connections_checked", "
 EXHAUSTIVE_NOTE = "every fault kind at every step index of every script, for each transport mix of the tier"
 
 QUICK_SHARDS = 4
-FAULTS = ["eof", "read-error", "eof-inside-message", "junk-then-eof", "handler-exception", "write-error", "task-cancelled"]
+FAULTS = ["eof", "read-error", "eof-inside-message", "junk-then-eof", "handler-exception", "write-error", "task-cancelled",
+          "handler-exception-then-partial-message", "handler-exception-between-messages"]
 
 
 def make_spec():
@@ -134,6 +135,11 @@ class Conn:
             self._eof()
         elif kind == "handler-exception":
             await self._raw('<getProperties version="1.7" device="BOOM"/>\n')
+        elif kind == "handler-exception-then-partial-message":
+            # the same read / line also carries the beginning of the connection's NEXT message
+            await self._raw('<getProperties version="1.7" device="BOOM"/><newTextVector device="DEV" name="TXT"><oneText na')
+        elif kind == "handler-exception-between-messages":
+            await self._raw('<getProperties version="1.7"/><getProperties version="1.7" device="BOOM"/><getProperties version="1.7"/>')
         elif kind == "task-cancelled":
             # the serving task is cancelled from outside (a supervisor timing the session out, the server shutting this connection down)
             self.resolve()
